@@ -17,85 +17,114 @@ package printer
 // here-document stack.
 //@ func (*printer).*
 //@   ensures len(p.stack) == old(len(p.stack)) && p.lv == old(p.lv)
+//@   ensures[C18] sep-unchanged: heapfield("ast.AndOrList.Sep") == old(heapfield("ast.AndOrList.Sep"))
 
 // Methods that can reach a redirection need a here-document frame to
 // collect into.
 //@ func (*printer).command
 //@   requires len(p.stack) >= 1 && c != nil
 //@   ensures len(p.stack) == old(len(p.stack)) && p.lv == old(p.lv)
+//@   ensures[C18] sep-unchanged: heapfield("ast.AndOrList.Sep") == old(heapfield("ast.AndOrList.Sep"))
 //@ func (*printer).list
 //@   requires len(p.stack) >= 1
 //@   ensures len(p.stack) == old(len(p.stack)) && p.lv == old(p.lv)
+//@   ensures[C18] sep-unchanged: heapfield("ast.AndOrList.Sep") == old(heapfield("ast.AndOrList.Sep"))
 //@ func (*printer).andOrList
 //@   requires len(p.stack) >= 1
 //@   ensures len(p.stack) == old(len(p.stack)) && p.lv == old(p.lv)
+//@   ensures[C18] sep-unchanged: heapfield("ast.AndOrList.Sep") == old(heapfield("ast.AndOrList.Sep"))
 //@ func (*printer).pipeline
 //@   requires len(p.stack) >= 1
 //@   ensures len(p.stack) == old(len(p.stack)) && p.lv == old(p.lv)
+//@   ensures[C18] sep-unchanged: heapfield("ast.AndOrList.Sep") == old(heapfield("ast.AndOrList.Sep"))
 //@ func (*printer).cmd
 //@   requires len(p.stack) >= 1
 //@   ensures len(p.stack) == old(len(p.stack)) && p.lv == old(p.lv)
+//@   ensures[C18] sep-unchanged: heapfield("ast.AndOrList.Sep") == old(heapfield("ast.AndOrList.Sep"))
 //@ func (*printer).simpleCmd
 //@   requires len(p.stack) >= 1
 //@   ensures len(p.stack) == old(len(p.stack)) && p.lv == old(p.lv)
+//@   ensures[C18] sep-unchanged: heapfield("ast.AndOrList.Sep") == old(heapfield("ast.AndOrList.Sep"))
 //@ func (*printer).redir
 //@   requires len(p.stack) >= 1
 //@   ensures len(p.stack) == old(len(p.stack)) && p.lv == old(p.lv)
+//@   ensures[C18] sep-unchanged: heapfield("ast.AndOrList.Sep") == old(heapfield("ast.AndOrList.Sep"))
 //@ func (*printer).subshell
 //@   requires len(p.stack) >= 1
 //@   ensures len(p.stack) == old(len(p.stack)) && p.lv == old(p.lv)
+//@   ensures[C18] sep-unchanged: heapfield("ast.AndOrList.Sep") == old(heapfield("ast.AndOrList.Sep"))
 //@ func (*printer).group
 //@   requires len(p.stack) >= 1
 //@   ensures len(p.stack) == old(len(p.stack)) && p.lv == old(p.lv)
+//@   ensures[C18] sep-unchanged: heapfield("ast.AndOrList.Sep") == old(heapfield("ast.AndOrList.Sep"))
 //@ func (*printer).forClause
 //@   requires len(p.stack) >= 1
 //@   ensures len(p.stack) == old(len(p.stack)) && p.lv == old(p.lv)
+//@   ensures[C18] sep-unchanged: heapfield("ast.AndOrList.Sep") == old(heapfield("ast.AndOrList.Sep"))
+// caseClause registers one restoring closure per item in a loop; "all of
+// them run at exit" needs a ghost set of registered closures, which the
+// engine does not have: its restoration clause is assumed, not proved.
 //@ func (*printer).caseClause
 //@   requires len(p.stack) >= 1
 //@   ensures len(p.stack) == old(len(p.stack)) && p.lv == old(p.lv)
+//@   assumes heapfield("ast.AndOrList.Sep") == old(heapfield("ast.AndOrList.Sep"))
 //@ func (*printer).ifClause
 //@   requires len(p.stack) >= 1
 //@   ensures len(p.stack) == old(len(p.stack)) && p.lv == old(p.lv)
+//@   ensures[C18] sep-unchanged: heapfield("ast.AndOrList.Sep") == old(heapfield("ast.AndOrList.Sep"))
 //@ func (*printer).whileClause
 //@   requires len(p.stack) >= 1
 //@   ensures len(p.stack) == old(len(p.stack)) && p.lv == old(p.lv)
+//@   ensures[C18] sep-unchanged: heapfield("ast.AndOrList.Sep") == old(heapfield("ast.AndOrList.Sep"))
 //@ func (*printer).untilClause
 //@   requires len(p.stack) >= 1
 //@   ensures len(p.stack) == old(len(p.stack)) && p.lv == old(p.lv)
+//@   ensures[C18] sep-unchanged: heapfield("ast.AndOrList.Sep") == old(heapfield("ast.AndOrList.Sep"))
 //@ func (*printer).loop
 //@   requires len(p.stack) >= 1 && len(cond) >= 1 && len(cmds) >= 1
 //@   ensures len(p.stack) == old(len(p.stack)) && p.lv == old(p.lv)
+//@   ensures[C18] sep-unchanged: heapfield("ast.AndOrList.Sep") == old(heapfield("ast.AndOrList.Sep"))
 //@ func (*printer).funcDef
 //@   requires len(p.stack) >= 1
 //@   ensures len(p.stack) == old(len(p.stack)) && p.lv == old(p.lv)
+//@   ensures[C18] sep-unchanged: heapfield("ast.AndOrList.Sep") == old(heapfield("ast.AndOrList.Sep"))
 
 //@ func (*printer).word
 //@   requires len(p.stack) >= 1
 //@   ensures len(p.stack) == old(len(p.stack)) && p.lv == old(p.lv)
+//@   ensures[C18] sep-unchanged: heapfield("ast.AndOrList.Sep") == old(heapfield("ast.AndOrList.Sep"))
 //@ func (*printer).wordPart
 //@   requires len(p.stack) >= 1 && w != nil
 //@   ensures len(p.stack) == old(len(p.stack)) && p.lv == old(p.lv)
+//@   ensures[C18] sep-unchanged: heapfield("ast.AndOrList.Sep") == old(heapfield("ast.AndOrList.Sep"))
 //@ func (*printer).quote
 //@   requires len(p.stack) >= 1
 //@   ensures len(p.stack) == old(len(p.stack)) && p.lv == old(p.lv)
+//@   ensures[C18] sep-unchanged: heapfield("ast.AndOrList.Sep") == old(heapfield("ast.AndOrList.Sep"))
 //@ func (*printer).paramExp
 //@   requires len(p.stack) >= 1
 //@   ensures len(p.stack) == old(len(p.stack)) && p.lv == old(p.lv)
+//@   ensures[C18] sep-unchanged: heapfield("ast.AndOrList.Sep") == old(heapfield("ast.AndOrList.Sep"))
 //@ func (*printer).cmdSubst
 //@   requires len(p.stack) >= 1
 //@   ensures len(p.stack) == old(len(p.stack)) && p.lv == old(p.lv)
+//@   ensures[C18] sep-unchanged: heapfield("ast.AndOrList.Sep") == old(heapfield("ast.AndOrList.Sep"))
 //@ func (*printer).arithExp
 //@   requires len(p.stack) >= 1
 //@   ensures len(p.stack) == old(len(p.stack)) && p.lv == old(p.lv)
+//@   ensures[C18] sep-unchanged: heapfield("ast.AndOrList.Sep") == old(heapfield("ast.AndOrList.Sep"))
 //@ func (*printer).arithExpr
 //@   requires len(p.stack) >= 1
 //@   ensures len(p.stack) == old(len(p.stack)) && p.lv == old(p.lv)
+//@   ensures[C18] sep-unchanged: heapfield("ast.AndOrList.Sep") == old(heapfield("ast.AndOrList.Sep"))
 //@ func (*printer).arithEval
 //@   requires len(p.stack) >= 1
 //@   ensures len(p.stack) == old(len(p.stack)) && p.lv == old(p.lv)
+//@   ensures[C18] sep-unchanged: heapfield("ast.AndOrList.Sep") == old(heapfield("ast.AndOrList.Sep"))
 
 //@ func (*printer).push
 //@   ensures len(p.stack) == old(len(p.stack)) + 1 && p.lv == old(p.lv)
+//@   preserves[C18] F.ast.*
 
 // After popping its frame heredoc prints the collected bodies; a command
 // substitution inside a body that stays on one line and yet carries a
@@ -105,14 +134,31 @@ package printer
 //@   requires len(p.stack) >= 1
 //@   waive requires "printer.(*printer).word" needs a grammar-level invariant (no here-document inside a one-line command substitution of a here-document body)
 //@   ensures len(p.stack) == old(len(p.stack)) - 1 && p.lv == old(p.lv)
+//@   ensures[C18] sep-unchanged: heapfield("ast.AndOrList.Sep") == old(heapfield("ast.AndOrList.Sep"))
 
+// ---- purity, writer failure, determinism (C18) ----
+//
+// The only AST field the printer ever writes is AndOrList.Sep (trim and the
+// closures it returns), and every printing method leaves that field of every
+// list as it found it (sep-unchanged above); a failed write is reported.
 //@ func (*printer).print
-//@   opaque
+//@   ensures[C18] sep-unchanged: heapfield("ast.AndOrList.Sep") == old(heapfield("ast.AndOrList.Sep"))
+//@   ensures[C18] writer-failure-reported: failed(p.w) ==> err != nil
+
+//@ func (*Config).Fprint
+//@   preserves[C18] F.ast.AndOrList.Pipeline F.ast.AndOrList.List F.ast.AndOrList.SepPos F.ast.Pipeline.* F.ast.Cmd.* F.ast.AndOr.* F.ast.Pipe.* F.ast.SimpleCmd.* F.ast.Subshell.* F.ast.Group.* F.ast.ArithEval.* F.ast.ForClause.* F.ast.CaseClause.* F.ast.CaseItem.* F.ast.IfClause.* F.ast.ElifClause.* F.ast.ElseClause.* F.ast.WhileClause.* F.ast.UntilClause.* F.ast.FuncDef.* F.ast.Assign.* F.ast.Redir.* F.ast.Lit.* F.ast.Quote.* F.ast.ParamExp.* F.ast.CmdSubst.* F.ast.ArithExp.* F.ast.Comment.*
+//@   preserves[C18] region field:ast.* unboxed:ast.* ext:Fprint.n
+//@   deterministic[C18]
+//@   ensures[C18] sep-unchanged: heapfield("ast.AndOrList.Sep") == old(heapfield("ast.AndOrList.Sep"))
 
 //@ func (*printer).sepOf
-//@   opaque
+//@   preserves[C18] *
+
+// trim hides a trailing ";" and returns the closure that puts it back; it is
+// executed in place at its call sites (no contract), so that the deferred
+// closure is known where it runs.
 //@ func (*printer).trim
-//@   opaque
+//@   inline
 
 // The closures returned by trim hold the list whose separator they restore.
 //@ func (*printer).trim$1
